@@ -22,10 +22,10 @@ func TestReplay(t *testing.T)       { vk.TestReplay(t) }
 
 type Filler struct {
 	ID, Rest, QK, QV, Name, Tag, Host, XName, Ck, Zz, Body string
-	Proto                                                 string // 1.1 | 1.0
-	NCookies                                              int
-	JSON                                                  bool
-	NewConn                                               bool
+	Proto                                                  string // 1.1 | 1.0
+	NCookies                                               int
+	JSON                                                   bool
+	NewConn                                                bool
 }
 
 type Case struct {
